@@ -6,7 +6,8 @@ open Ak Ak.Proto Ghist
 `ord <id>@<deps> …`                       → `ok <sorted ids>` | `err ValueError`
 `col <remote> <id>@<deps>@<commits>@<refs> …` (repositories in the order supplied)
 * deps    : comma list of repository ids or `-`
-* commits : `;`-separated `parents:tags:match:pins` (`pins` = `+`-separated `comp=major.minor.patch` or `-`)
+* commits : `;`-separated `parents:tags:match:time:pins` (`time` = commit time in seconds; `pins` = `+`-separated
+            `comp=major.minor.patch` or `-`)
 * refs    : `;`-separated `name:head`
 reply: `ok o=<sorted ids> r=<id> <branch> … r=<id> …`, branch = `name=build;…`,
 build = `N|M:bn:commit|-:commits:bumps:included_at`, bumps = `+`-separated `comp>to<from/from…`,
@@ -34,10 +35,11 @@ def parsePins (s : String) : Option Pins :=
 
 def parseCommit (s : String) : Option (Commit Pins) :=
   match s.splitOn ":" with
-  | [p, t, m, q] =>
-    match parseNatList p, parseTags t, m.toNat?, parsePins q with
-    | some ps, some ts, some k, some pins => some { parents := ps, tags := ts, isMatch := k != 0, pins := pins }
-    | _, _, _, _ => none
+  | [p, t, m, ts, q] =>
+    match parseNatList p, parseTags t, m.toNat?, ts.toNat?, parsePins q with
+    | some ps, some tg, some k, some time, some pins =>
+      some { parents := ps, tags := tg, isMatch := k != 0, pins := pins, time := time }
+    | _, _, _, _, _ => none
   | _ => none
 
 def parseList {α} (f : String → Option α) (s : String) : Option (List α) :=
